@@ -482,7 +482,11 @@ class FitBase(FileIOMixin, object):
     def data(self, new_data):
         self._set_new_data(new_data)
         # validate cost function
-        _data_and_cost_compatible, _reason = self._cost_function.is_data_compatible(self.data)
+        try:
+            _data_for_cost = self.y_data  # for xy data only the y values are compared with the model
+        except AttributeError:
+            _data_for_cost = self.data
+        _data_and_cost_compatible, _reason = self._cost_function.is_data_compatible(_data_for_cost)
         if not _data_and_cost_compatible:
             raise ValueError("Fit data and cost function are not compatible: %s" % _reason)
         self._set_new_parametric_model()
